@@ -334,6 +334,22 @@ theorem related_of_same (hs : List Host) (hwf : hostsWf hs = true) (a b : Nat)
       rw [h2]
       exact h1
 
+theorem viaEquals_none_left (hs : List Host) (a b : Nat) (ha : hs[a]? = none) :
+    viaEquals hs a b = false := by
+  simp [viaEquals, isKind, kindOf, ha]
+
+theorem viaEquals_none_right (hs : List Host) (a b : Nat) (hb : hs[b]? = none) :
+    viaEquals hs a b = false := by
+  have : ∀ v, sameMachine hs v b = false := by
+    intro v
+    unfold sameMachine
+    cases hs[v]? <;> simp [hb]
+  simp [viaEquals, this]
+
+/-- a transfer that may be refused, refused -/
+theorem holds_optional_err (w : Want) (e : Err) : holds w.optional (observe ⟨some e, []⟩) = true := by
+  cases w <;> simp [Want.optional, holds, observe]
+
 /-- **copy.**  For every well-formed set of machines, every pair of them and all paths, the model of
 `linux.copy` does what `wantCopy` asks for: `cp` on the same machine, one scp with the remote
 machine's parameters for each supported pairing and direction, an exception and no command
@@ -344,14 +360,17 @@ theorem copy_spec (hs : List Host) (hwf : hostsWf hs = true) (a : Nat) (pa : Str
   cases ha : hs[a]? with
   | none =>
     cases hb : hs[b]? with
-    | none => simp [sameMachine, classRelated, isKind, kindOf, isRemote, viaOf, ha, hb, holds, observe]
+    | none => simp [sameMachine, classRelated, isKind, kindOf, isRemote, viaOf, ha, hb, holds, observe,
+        viaEquals_none_left]
     | some y =>
-      simp [sameMachine, classRelated, isKind, kindOf, isRemote, viaOf, ha, hb, holds, observe]
+      simp [sameMachine, classRelated, isKind, kindOf, isRemote, viaOf, ha, hb, holds, observe,
+        viaEquals_none_left, viaEquals_none_right]
       by_cases h : (y.kind = Kind.ssh ∧ y.via = some a) <;> simp [h, wantScp, ha, hb]
   | some x =>
     cases hb : hs[b]? with
     | none =>
-      simp [sameMachine, classRelated, isKind, kindOf, isRemote, viaOf, ha, hb, holds, observe]
+      simp [sameMachine, classRelated, isKind, kindOf, isRemote, viaOf, ha, hb, holds, observe,
+        viaEquals_none_left, viaEquals_none_right]
       by_cases h : (x.kind = Kind.ssh ∧ x.via = some b) <;> simp [h, wantScp, ha, hb]
     | some y =>
       simp only [Option.isNone_some, Bool.or_self, Bool.false_eq_true, if_false]
@@ -374,12 +393,15 @@ theorem copy_spec (hs : List Host) (hwf : hostsWf hs = true) (a : Nat) (pa : Str
           | false => rfl
           | true => rw [related_of_same hs hwf a b h] at hc; cases hc
         simp only [hsm', Bool.false_eq_true, if_false]
-        simp only [isKind, isRemote, kindOf, ha, hb, Option.map_some]
+        simp only [viaEquals, isKind, isRemote, kindOf, ha, hb, Option.map_some]
         generalize (viaOf hs a == some b) = va
         generalize (viaOf hs b == some a) = vb
-        cases hkx : x.kind <;> cases hky : y.kind <;> cases va <;> cases vb <;>
+        generalize ((viaOf hs a).any fun v => sameMachine hs v b) = ca
+        generalize ((viaOf hs b).any fun v => sameMachine hs v a) = cb
+        cases hkx : x.kind <;> cases hky : y.kind <;> cases va <;> cases vb <;> cases ca <;> cases cb <;>
           first
             | (simp [scpFrom_spec]; done)
+            | (simp [holds_optional_err]; done)
             | (simp [holds, observe]; done)
 
 /-- **C20 holds of the model**, for every well-formed case: any number of machines of any kinds, any
@@ -454,19 +476,22 @@ theorem copy_by_role (hs : List Host) (hwf : hostsWf hs = true) (a : Nat) (pa : 
     | .same => copy hs a pa b pb = ⟨none, [⟨⟨a, 0⟩, false, [.s (lit "cp"), .p ⟨a, 0⟩ pa, .p ⟨a, 0⟩ pb]⟩]⟩
     | .fromRemote => copy hs a pa b pb = scpFrom hs a b pb pa false
     | .toRemote => copy hs a pa b pb = scpFrom hs b a pa pb true
-    | .unsupported => ∃ e, copy hs a pa b pb = ⟨some e, []⟩ := by
+    | .fromRemoteViaClone | .toRemoteViaClone | .unsupported => ∃ e, copy hs a pa b pb = ⟨some e, []⟩ := by
   unfold copy role
   cases ha : hs[a]? with
   | none =>
     cases hb : hs[b]? with
-    | none => simp [sameMachine, classRelated, isKind, kindOf, isRemote, viaOf, ha, hb]
+    | none => simp [sameMachine, classRelated, isKind, kindOf, isRemote, viaOf, ha, hb,
+        viaEquals_none_left]
     | some y =>
-      simp [sameMachine, classRelated, isKind, kindOf, isRemote, viaOf, ha, hb]
+      simp [sameMachine, classRelated, isKind, kindOf, isRemote, viaOf, ha, hb,
+        viaEquals_none_left, viaEquals_none_right]
       by_cases h : (y.kind = Kind.ssh ∧ y.via = some a) <;> simp [h, scpFrom, scpCopy, ha, hb]
   | some x =>
     cases hb : hs[b]? with
     | none =>
-      simp [sameMachine, classRelated, isKind, kindOf, isRemote, viaOf, ha, hb]
+      simp [sameMachine, classRelated, isKind, kindOf, isRemote, viaOf, ha, hb,
+        viaEquals_none_left, viaEquals_none_right]
       by_cases h : (x.kind = Kind.ssh ∧ x.via = some b) <;> simp [h, scpFrom, scpCopy, ha, hb]
     | some y =>
       simp only [Option.isNone_some, Bool.or_self, Bool.false_eq_true, if_false]
@@ -486,10 +511,12 @@ theorem copy_by_role (hs : List Host) (hwf : hostsWf hs = true) (a : Nat) (pa : 
           | false => rfl
           | true => rw [related_of_same hs hwf a b h] at hc; cases hc
         simp only [hsm', Bool.false_eq_true, if_false]
-        simp only [isKind, isRemote, kindOf, ha, hb, Option.map_some]
+        simp only [viaEquals, isKind, isRemote, kindOf, ha, hb, Option.map_some]
         generalize (viaOf hs a == some b) = va
         generalize (viaOf hs b == some a) = vb
-        cases hkx : x.kind <;> cases hky : y.kind <;> cases va <;> cases vb <;> simp
+        generalize ((viaOf hs a).any fun v => sameMachine hs v b) = ca
+        generalize ((viaOf hs b).any fun v => sameMachine hs v a) = cb
+        cases hkx : x.kind <;> cases hky : y.kind <;> cases va <;> cases vb <;> cases ca <;> cases cb <;> simp
 
 /-- **copy to the remote end** (lab-host → ssh machine created from it, local host → ssh / paramiko
 machine): one scp on `a` with the parameters of `b`, operands `local, user@host:remote`. -/
@@ -557,6 +584,23 @@ theorem refused_authenticator (hs : List Host) (r lh : Nat) (lp rp : Str) (to : 
       rw [hid] at hid'
       cases hid'
 
+
+/-- … and so does opening the ssh machine itself -/
+theorem connect_refused (hs : List Host) (i v : Nat) (m : Host) (hi : hs[i]? = some m)
+    (hv : m.via = some v) (hid : wantIdents hs v (authOf m) = none) :
+    ∃ e, connect hs i = ⟨some e, []⟩ := by
+  unfold connect
+  simp only [hi, hv]
+  cases hj : hs[v]? with
+  | none => exact ⟨_, rfl⟩
+  | some jh =>
+    simp only []
+    cases hh : sshHead hs v (authOf m) with
+    | error e => exact ⟨e, rfl⟩
+    | ok head =>
+      obtain ⟨ids, hid', _⟩ := parseSsh_sshArgv hs v _ head hh false none 0 [] [] []
+      rw [hid] at hid'
+      cases hid'
 
 /-! ## "iff" statements, as multiset counts (the configured extra options may themselves contain
 any of these strings; they are passed through, never dropped or doubled) -/
@@ -645,7 +689,8 @@ example : role exHosts 1 2 = .toRemote := by decide        -- lab-host → ssh m
 example : role exHosts 2 1 = .fromRemote := by decide
 example : role exHosts 1 4 = .same := by decide            -- a machine and its clone
 example : role exHosts 2 3 = .unsupported := by decide     -- two remote machines
-example : role exHosts 2 4 = .unsupported := by decide     -- the clone is not the host it was created from
+example : role exHosts 2 4 = .fromRemoteViaClone := by decide   -- a clone of the host it was created from: may be refused
+example : role exHosts 2 0 = .fromRemote ∧ role exHosts 3 1 = .unsupported := by decide  -- ssh machine and a lab-host it was not created from
 example : wantIdents exHosts 0 (authOf exHosts[2]) = some [lit "/k/id"] := by decide
 example : userOf exHosts exHosts.length 3 = lit "me" := by decide   -- default user: the jump host's
 example : ((run (exCase (.copy 2 (lit "/src/f") 0 (lit "/dst/g")))).events.map (·.argv.length)) = [19] := by
